@@ -94,8 +94,20 @@ pub fn ref_should_process(c: &Cfg, si: &IpAddr, di: &IpAddr, sp: u16, dp: u16) -
 type Eval = Box<dyn Fn(&IpAddr, &IpAddr, u16, u16) -> (bool, Option<bool>, Option<bool>, Option<bool>) + Sync + Send>;
 
 macro_rules! filter_impl {
-    ($name:ident, $krate:ident) => {
+    ($name:ident, $cfgname:ident, $krate:ident) => {
         pub fn $name(c: &Cfg) -> Eval {
+            let fc = $cfgname(c);
+            Box::new(move |si, di, sp, dp| {
+                (
+                    fc.should_process(si, di, sp, dp),
+                    fc.port_filter.as_ref().map(|f| f.matches(sp, dp)),
+                    fc.ip_filter.as_ref().map(|f| f.matches(si, di)),
+                    fc.subnet_filter.as_ref().map(|f| f.matches(si, di)),
+                )
+            })
+        }
+        /// the crate's own FilterConfig built through its public builder API
+        pub fn $cfgname(c: &Cfg) -> $krate::FilterConfig {
             use $krate::{FilterConfig, FilterMode, IpFilter, PortFilter, SubnetFilter};
             let mut fc = FilterConfig::new().mode(if c.deny { FilterMode::Deny } else { FilterMode::Allow });
             if let Some(p) = &c.pf {
@@ -143,20 +155,13 @@ macro_rules! filter_impl {
                 }
                 fc = fc.with_subnet_filter(f);
             }
-            Box::new(move |si, di, sp, dp| {
-                (
-                    fc.should_process(si, di, sp, dp),
-                    fc.port_filter.as_ref().map(|f| f.matches(sp, dp)),
-                    fc.ip_filter.as_ref().map(|f| f.matches(si, di)),
-                    fc.subnet_filter.as_ref().map(|f| f.matches(si, di)),
-                )
-            })
+            fc
         }
     };
 }
-filter_impl!(build_tcp, huginn_net_tcp);
-filter_impl!(build_http, huginn_net_http);
-filter_impl!(build_tls, huginn_net_tls);
+filter_impl!(build_tcp, cfg_tcp, huginn_net_tcp);
+filter_impl!(build_http, cfg_http, huginn_net_http);
+filter_impl!(build_tls, cfg_tls, huginn_net_tls);
 
 pub fn build_for(krate: &str, c: &Cfg) -> Eval {
     match krate {
